@@ -134,6 +134,21 @@ theorem value_within_format_unfixed_refuted :
     convert .uint8 (.float (.fin false 300 0)) = .int 255 ∧ convert .uint8 (.float (.fin true 1 0)) = .int 0 :=
   ⟨rfl, rfl, rfl, rfl⟩
 
+/-- The float range setters never leave a bound that cannot be encoded: whatever they are given — a number, NaN, ±Inf —,
+    the three bounds they store satisfy the first two conjuncts of `boundsOk` (finite or absent), which is what
+    `value_encodable` and the JSON of the attribute database need of them. F63 repair: "a thermometer without bounds"
+    (`NewTemperatureSensor(info, 20, -Inf, +Inf, 0.1)`) made `/accessories` answer 500 for every accessory and
+    `NewIPTransport` panic in the content hash. -/
+theorem range_setters_store_encodable_bounds (x : F64) :
+    (match setBound x with | .float y => y.isFinite = true | .nil => True | _ => False) ∧
+    (x.isFinite = true → setBound x = .float x) := by
+  unfold setBound
+  cases h : x.isFinite <;> simp [h]
+
+theorem range_setter_unfixed_refuted :
+    setBoundOld (.inf false) = .float (.inf false) ∧ setBound (.inf false) = .nil ∧ setBound .nan = .nil := by
+  refine ⟨rfl, rfl, rfl⟩
+
 -- non-vacuity: instances of the hypotheses, and what fails without them ---------------------------------
 
 /-- The comparison of the stored with the new value never panics, whatever the two dynamic values are (also slices and
